@@ -152,7 +152,19 @@ func (g unionReprStringprefixReprBuilderGenerator) EmitNodeBuilderMethods(w io.W
 	// REVIEW: We could make an immut-safe version of this and export it on the NodePrototype too, as `FromString(string)`.
 	doTemplate(`
 		func (_{{ .Type | TypeSymbol }}__ReprPrototype) fromString(w *_{{ .Type | TypeSymbol }}, v string) error {
+			{{- if eq .Type.RepresentationStrategy.GetDelim "" }}
+			// No delimiter: the discriminant is a bare prefix of the string (members are tried in their stated order).
+			var ss []string
+			switch {
+			{{- range $i, $member := .Type.Members }}
+			{{- $d := ($member | dot.Type.RepresentationStrategy.GetDiscriminant) }}
+			case len(v) >= {{ len $d }} && v[:{{ len $d }}] == "{{ $d }}":
+				ss = []string{"{{ $d }}", v[{{ len $d }}:]}
+			{{- end}}
+			}
+			{{- else}}
 			ss := mixins.SplitN(v, "{{ .Type.RepresentationStrategy.GetDelim }}", 2)
+			{{- end}}
 			if len(ss) != 2 {
 				return schema.ErrUnmatchable{TypeName:"{{ .PkgName }}.{{ .Type.Name }}.Repr"}.Reasonf("expecting a stringprefix union but found no delimiter in the value")
 			}
